@@ -34,6 +34,12 @@ type engHist struct {
 	next uint64
 	rows map[uint64]map[string]string // shard -> "mst|s|t" -> fi
 	kind string
+
+	series  map[uint64]map[string]bool // shard -> "mst|s" -> the series exists (not dropped)
+	memDel  map[string]bool            // "db/rp" -> the policy's deleted set in memory is not empty
+	diskDel map[string]bool            // "db/rp" -> ... on disk
+	fin     map[uint64]func() error    // shard -> second half of a merge of parts of its index
+	stopped map[uint64]bool
 }
 
 func (h *engHist) liveOf(db, rp string) []engine.VerifEngineShard {
@@ -174,7 +180,7 @@ func (h *engHist) observe(tag string) {
 				var rows []engine.VerifRow
 				var err error
 				perr := hx.Safe(func() {
-					rows, err = sh.Dump(mst, []engine.VerifField{{Name: "fi", Type: influxql.Integer}}, engx.TimeOf(0), engx.TimeOf(9), true)
+					rows, err = sh.Dump(mst, []engine.VerifField{{Name: "fi", Type: influxql.Integer}}, engx.TimeOf(0), engx.TimeOf(40), true)
 				})
 				if perr != "" || err != nil {
 					got = errText(perr, err)
@@ -228,17 +234,75 @@ func (h *engHist) observe(tag string) {
 	}
 }
 
+func (h *engHist) endMerges() {
+	var ids []uint64
+	for id := range h.fin {
+		ids = append(ids, id)
+	}
+	sort.Slice(ids, func(a, b int) bool { return ids[a] < ids[b] })
+	for _, id := range ids {
+		fin := h.fin[id]
+		delete(h.fin, id)
+		h.emit(fmt.Sprintf("emend %d", id), fin)
+		h.kind += "e"
+		h.c.Count("op:engine-index-merge-end")
+	}
+}
+
 func (h *engHist) open() error {
 	e, err := engine.VerifOpenDropEngine(h.dir, h.live)
 	if err != nil {
 		return err
 	}
 	h.e = e
+	h.stopped = map[uint64]bool{}
+	for _, s := range h.live {
+		h.e.StopIndexBackground(s)
+	}
 	return nil
 }
 
+// seriesObs: SHOW SERIES on the index of every live shard, both measurements.
+func (h *engHist) seriesObs(tag string) {
+	for _, s := range h.live {
+		for _, mst := range []string{"m", "n"} {
+			var keys []string
+			var err error
+			perr := hx.Safe(func() { keys, err = h.e.SeriesKeys(s, mst) })
+			got := ""
+			if perr != "" || err != nil {
+				got = errText(perr, err)
+			} else {
+				var ids []int
+				for _, k := range keys {
+					ids = append(ids, engx.SeriesIndex(k))
+				}
+				sort.Ints(ids)
+				var ts []string
+				for _, i := range ids {
+					ts = append(ts, fmt.Sprint(i))
+				}
+				got = "keys " + strings.Join(ts, ",")
+			}
+			line := h.c.Emit(fmt.Sprintf("eseries %d %s", s.ShardID, mst), got)
+			var want []string
+			for i := 0; i < 3; i++ {
+				if h.series[s.ShardID][fmt.Sprintf("%s|%d", mst, i)] {
+					want = append(want, fmt.Sprint(i))
+				}
+			}
+			h.c.Count("read:engine-series")
+			if w := "keys " + strings.Join(want, ","); got != w {
+				h.c.Violation(line, "", fmt.Sprintf("engine history %d after %s (%s): SHOW SERIES of %s on shard %d (%s.%s, index %d) answers %q, the writes minus the drops give %q", h.idx, tag, h.kind, mst, s.ShardID, s.DB, s.RP, s.IndexID, got, w))
+			}
+		}
+	}
+}
+
 func runEngineHistory(c *hx.Ctx, r *hx.Rng, idx int) error {
-	h := &engHist{c: c, r: r, idx: idx, dir: engx.ScratchDir("c13eng"), next: 1, rows: map[uint64]map[string]string{}}
+	h := &engHist{c: c, r: r, idx: idx, dir: engx.ScratchDir("c13eng"), next: 1, rows: map[uint64]map[string]string{},
+		series: map[uint64]map[string]bool{}, memDel: map[string]bool{}, diskDel: map[string]bool{}, fin: map[uint64]func() error{}, stopped: map[uint64]bool{}}
+	engine.VerifSlotBase = engx.BaseTime
 	defer func() { os.RemoveAll(h.dir) }()
 	if err := h.open(); err != nil {
 		return err
@@ -247,12 +311,21 @@ func runEngineHistory(c *hx.Ctx, r *hx.Rng, idx int) error {
 	c.Count("history:engine")
 	dbs, rps := []string{"db0", "db1"}, []string{"rp0", "rp1"}
 	mk := func(db, rp string) {
-		s := engine.VerifEngineShard{DB: db, RP: rp, ShardID: h.next, IndexID: h.next}
+		// the shards of one policy cover consecutive time windows (slot k: times 3(k-1) .. 3k-1), each with an index of its own
+		slot := 1
+		for _, x := range h.all {
+			if x.DB == db && x.RP == rp && x.Slot >= slot {
+				slot = x.Slot + 1
+			}
+		}
+		s := engine.VerifEngineShard{DB: db, RP: rp, ShardID: h.next, IndexID: h.next, Slot: slot}
 		h.next++
 		if h.emit(fmt.Sprintf("emk %s %s %d %d", db, rp, s.ShardID, s.IndexID), func() error { return h.e.CreateShard(s) }) == "ok" {
 			h.live = append(h.live, s)
 			h.all = append(h.all, s)
 			h.rows[s.ShardID] = map[string]string{}
+			h.series[s.ShardID] = map[string]bool{}
+			h.e.StopIndexBackground(s)
 		}
 		h.kind += "s"
 		c.Count("op:engine-create-shard")
@@ -264,6 +337,8 @@ func runEngineHistory(c *hx.Ctx, r *hx.Rng, idx int) error {
 				l = append(l, s)
 			} else {
 				delete(h.rows, s.ShardID)
+				delete(h.series, s.ShardID)
+				delete(h.fin, s.ShardID)
 			}
 		}
 		h.live = l
@@ -273,27 +348,29 @@ func runEngineHistory(c *hx.Ctx, r *hx.Rng, idx int) error {
 	mk("db1", "rp0")
 	h.observe("start")
 	dropped := false
-	nOps := 8 + r.Intn(14)
+	nOps := 10 + r.Intn(18)
 	for i := 0; i < nOps; i++ {
 		tag := ""
 		switch p := r.Intn(100); {
-		case p < 40 && len(h.live) > 0:
+		case p < 30 && len(h.live) > 0:
 			s := h.live[r.Intn(len(h.live))]
 			mst := []string{"m", "n"}[r.Intn(2)]
-			ser, t, v := r.Intn(3), r.Intn(4), r.Intn(100)
+			ser, t, v := r.Intn(3), 3*(s.Slot-1)+r.Intn(3), r.Intn(100)
 			row := engx.Row{Mst: mst, Series: ser, T: t, Fields: map[string]string{"fi": fmt.Sprint(v)}}
 			if h.emit(fmt.Sprintf("ewrite %d %s %d %d %d", s.ShardID, mst, ser, t, v), func() error { return h.e.Write(s, engx.ToInflux([]engx.Row{row})) }) == "ok" {
 				h.rows[s.ShardID][fmt.Sprintf("%s|%d|%d", mst, ser, t)] = fmt.Sprint(v)
+				h.series[s.ShardID][fmt.Sprintf("%s|%d", mst, ser)] = true
 			}
 			h.kind += "w"
 			tag = "write"
 			c.Count("op:engine-write")
-		case p < 50:
+		case p < 36:
 			h.emit("eflush", func() error { h.e.Flush(); return nil })
 			h.kind += "f"
 			tag = "flush"
 			c.Count("op:engine-flush")
-		case p < 62:
+		case p < 44:
+			h.endMerges()
 			db := dbs[r.Intn(2)]
 			mst := []string{"m", "n"}[r.Intn(2)]
 			var ids []uint64
@@ -321,34 +398,193 @@ func runEngineHistory(c *hx.Ctx, r *hx.Rng, idx int) error {
 			tag = "drop measurement"
 			dropped = true
 			c.Count("op:engine-drop-measurement")
-		case p < 74:
+		case p < 51:
 			db, rp := dbs[r.Intn(2)], rps[r.Intn(2)]
 			if len(h.liveOf(db, "")) == 0 {
 				continue // the store has no partition of the database
 			}
+			h.endMerges()
 			h.emit(fmt.Sprintf("edroprp %s %s", db, rp), func() error { return h.e.DropRetentionPolicy(db, rp) })
 			dropWhere(func(s engine.VerifEngineShard) bool { return !(s.DB == db && s.RP == rp) })
+			delete(h.memDel, db+"/"+rp)
+			delete(h.diskDel, db+"/"+rp)
 			h.kind += "P"
 			tag = "drop retention policy"
 			dropped = true
 			c.Count("op:engine-drop-retention-policy")
-		case p < 80:
+		case p < 55:
 			db := dbs[r.Intn(2)]
+			h.endMerges()
 			h.emit("edropdb "+db, func() error { return h.e.DeleteDatabase(db) })
 			dropWhere(func(s engine.VerifEngineShard) bool { return s.DB != db })
+			for _, rp := range rps {
+				delete(h.memDel, db+"/"+rp)
+				delete(h.diskDel, db+"/"+rp)
+			}
 			h.kind += "D"
 			tag = "drop database"
 			dropped = true
 			c.Count("op:engine-drop-database")
-		case p < 90:
+		case p < 65:
 			// a policy (or database) that has no shard gets one: created again after a drop, or new
 			db, rp := dbs[r.Intn(2)], rps[r.Intn(2)]
-			if len(h.liveOf(db, rp)) > 0 {
+			if len(h.liveOf(db, rp)) >= 3 {
 				continue
 			}
 			mk(db, rp)
 			tag = "create shard"
+		case p < 77 && len(h.live) > 0:
+			// DROP SERIES FROM mst WHERE host = ... on a database: every shard's index is searched, the tsids go
+			// to the deleted-tsid index of the shard's policy; then the index flush interval passes
+			db := dbs[r.Intn(2)]
+			if len(h.liveOf(db, "")) == 0 {
+				continue
+			}
+			mst := []string{"m", "n"}[r.Intn(2)]
+			ser := r.Intn(3)
+			// rows of a dropped series that are still only in the memtable / WAL come back at the next
+			// start (known finding unflushed_rows_then_crash): these histories flush first
+			h.emit("eflush", func() error { h.e.Flush(); return nil })
+			var n map[uint64]int
+			var err error
+			perr := hx.Safe(func() { n, err = h.e.DropSeries(db, mst, fmt.Sprintf("host = 'h%d'", ser)) })
+			ans := "ok"
+			if perr != "" || err != nil {
+				ans = errText(perr, err)
+			} else {
+				var ts []string
+				for _, s := range h.liveOf(db, "") {
+					ts = append(ts, fmt.Sprintf("%d=%d", s.ShardID, n[s.ShardID]))
+				}
+				sort.Strings(ts)
+				ans = "ok " + strings.Join(ts, ",")
+			}
+			line := h.c.Emit(fmt.Sprintf("edropseries %s %s %d", db, mst, ser), ans)
+			var want []string
+			for _, s := range h.liveOf(db, "") {
+				k := fmt.Sprintf("%s|%d", mst, ser)
+				c := 0
+				if h.series[s.ShardID][k] {
+					c = 1
+					delete(h.series[s.ShardID], k)
+					for rk := range h.rows[s.ShardID] {
+						if strings.HasPrefix(rk, k+"|") {
+							delete(h.rows[s.ShardID], rk)
+						}
+					}
+					h.memDel[s.DB+"/"+s.RP], h.diskDel[s.DB+"/"+s.RP] = true, true
+				}
+				want = append(want, fmt.Sprintf("%d=%d", s.ShardID, c))
+			}
+			sort.Strings(want)
+			if w := "ok " + strings.Join(want, ","); ans != w {
+				h.c.Violation(line, "", fmt.Sprintf("engine history %d (%s): drop series selected %q, the predicate names %q", h.idx, h.kind, ans, w))
+			}
+			for _, s := range h.liveOf(db, "") {
+				h.e.StopIndexBackground(s) // the deleted-tsid index of a policy is made by its first drop
+				h.e.FlushIndexes(s)
+			}
+			h.kind += "d"
+			tag = "drop series"
+			dropped = true
+			c.Count("op:engine-drop-series")
+		case p < 83 && len(h.live) > 0:
+			// a merger takes parts of one shard's index; the merge ends at a later step
+			s := h.live[r.Intn(len(h.live))]
+			if h.fin[s.ShardID] != nil {
+				continue
+			}
+			parts, err := h.e.IndexParts(s)
+			if err != nil || len(parts) == 0 {
+				continue
+			}
+			var pos []int
+			for i := range parts {
+				pos = append(pos, i)
+			}
+			var k int
+			var fin func() error
+			perr := hx.Safe(func() { k, fin = h.e.BeginIndexMerge(s, pos) })
+			ans := fmt.Sprintf("ok %d", k)
+			if perr != "" {
+				ans = "err " + perr
+			}
+			h.c.Emit(fmt.Sprintf("embegin %d", s.ShardID), "ok")
+			_ = ans
+			if k > 0 {
+				h.fin[s.ShardID] = fin
+			} else {
+				h.emit(fmt.Sprintf("emend %d", s.ShardID), func() error { return nil })
+			}
+			h.kind += "b"
+			tag = "index merge begins"
+			c.Count("op:engine-index-merge-begin")
+		case p < 86:
+			h.endMerges()
+			tag = "index merges end"
+		case p < 94:
+			// the periodic drop-series task of the store
+			var err error
+			perr := hx.Safe(func() { err = h.e.PurgeDeleted() })
+			ans := "ok"
+			switch {
+			case perr != "":
+				ans = "err " + strings.SplitN(perr, "\n", 2)[0]
+			case err != nil && strings.Contains(err.Error(), "are being merged"):
+				ans = "err parts-in-merge"
+			case err != nil:
+				ans = errText("", err)
+			}
+			line := h.c.Emit("epurge", ans)
+			// a policy whose indexes could all be rewritten forgets its deleted tsids on disk
+			refused := false
+			pols := map[string][]engine.VerifEngineShard{}
+			for _, s := range h.live {
+				pols[s.DB+"/"+s.RP] = append(pols[s.DB+"/"+s.RP], s)
+			}
+			for pol, shards := range pols {
+				if !h.memDel[pol] {
+					continue
+				}
+				busy := false
+				for _, s := range shards {
+					if h.fin[s.ShardID] != nil {
+						busy = true
+					}
+				}
+				if busy {
+					refused = true
+				} else {
+					h.diskDel[pol] = false
+				}
+			}
+			want := "ok"
+			if refused {
+				want = "err parts-in-merge"
+				c.Count("engine-purge:left-to-a-running-merge")
+			}
+			if ans != want {
+				h.c.Violation(line, "", fmt.Sprintf("engine history %d (%s): the purge answered %q, expected %q", h.idx, h.kind, ans, want))
+			}
+			// what the deleted-tsid index of every policy still holds on disk
+			for _, s := range h.live {
+				dp, _ := h.e.DeletedParts(s)
+				n := 0
+				for _, p := range dp {
+					n += len(p.Series)
+				}
+				if (n > 0) != h.diskDel[s.DB+"/"+s.RP] {
+					h.c.Violation(line, "", fmt.Sprintf("engine history %d (%s): after the purge the deleted-tsid index of %s.%s holds %d tsids on disk; it must hold some iff an index of the policy could not be rewritten", h.idx, h.kind, s.DB, s.RP, n))
+				}
+			}
+			h.kind += "p"
+			tag = "purge"
+			c.Count("op:engine-purge")
 		default:
+			h.endMerges()
+			for pol := range h.memDel {
+				h.memDel[pol] = h.diskDel[pol]
+			}
 			var ids []string
 			for _, s := range h.live {
 				ids = append(ids, fmt.Sprint(s.ShardID))
@@ -371,7 +607,9 @@ func runEngineHistory(c *hx.Ctx, r *hx.Rng, idx int) error {
 			}
 		}
 		h.observe(fmt.Sprintf("op %d %s", i, tag))
+		h.seriesObs(fmt.Sprintf("op %d %s", i, tag))
 	}
+	h.endMerges()
 	c.Case(fmt.Sprintf("engine:%d:%s", idx, h.kind), dropped)
 	return h.e.Close()
 }
